@@ -7,8 +7,8 @@ Emits coq/Model/Tables_c10paths.v with
                        (key, field assigned, guarded by `!path.is_empty()`?, resolver method) — the model's
                        dict_setting (guard) vs stats_setting (no guard), both through try_resolve
   save_dict_refuses_no_file_name   does save_dict (harper-ls/src/dictionary_io.rs) return early when
-                       `path.file_name()` is None?  (false now: finding FC10b; the proposed fix makes it true and the
-                       model must then switch to cfg_user_plan_fixed)
+                       `path.file_name()` is None?  (true since a91f3ee, the fix of finding FC10b: EffectsSave.save_dict_plan has
+                       the guard; false would be the old code, modelled as *_old)
   ls_file_dict_name    (separator pushed after each component, is RootDir skipped, empty name refused?) of harper-ls
   cli_file_dict_name   (separator, RootDir skipped, empty name refused?) of harper-cli/src/main.rs
   cli_lint_loads       the argument expressions of the load_dict calls in harper-cli's `lint` arm, in order, with the
@@ -92,6 +92,8 @@ def save_dict_guard(repo):
     if guard:
         if guard.start() > b.index("create_dir_all("):
             raise Shape("save_dict checks file_name() only after creating directories")
+        if b.count("file_name()") != 2:
+            raise Shape("save_dict (guarded, since a91f3ee) mentions file_name() %d times, expected the guard + the temporary name" % b.count("file_name()"))
         return True
     if b.count("file_name()") != 1:
         raise Shape("save_dict mentions file_name() %d times in a shape I do not know" % b.count("file_name()"))
